@@ -32,3 +32,26 @@ struct CObject {
   const CObjectVptr *vptr;
   mpt::object *iface() { return reinterpret_cast<mpt::object *>(this); }
 };
+
+// MPT_INTERFACE_VPTR(metatype) / MPT_INTERFACE_VPTR(iterator) as C sees them
+struct CMeta;
+struct CMetaVptr {
+  CConvVptr convertable;
+  void (*unref)(CMeta *);
+  uintptr_t (*addref)(CMeta *);
+  CMeta *(*clone)(const CMeta *);
+};
+struct CMeta {
+  const CMetaVptr *vptr;
+  CConv *conv() { return reinterpret_cast<CConv *>(this); }
+};
+struct CIter;
+struct CIterVptr {
+  const mpt::value *(*value)(CIter *);
+  int (*advance)(CIter *);
+  int (*reset)(CIter *);
+};
+struct CIter {
+  const CIterVptr *vptr;
+  mpt::iterator *iface() { return reinterpret_cast<mpt::iterator *>(this); }
+};
